@@ -344,8 +344,11 @@ Lemma quiet_exec : forall a, quiet (obs "exec" a).  Proof. intros; quiet_tac. Qe
 Lemma quiet_cb_udp : forall cid src, quiet (obs "cb" (ASym "udp" :: AInt cid :: src)).
 Proof. intros; quiet_tac. Qed.
 
+Lemma quiet_pending : forall cid fd n, quiet ("g", [ASym "pending"; AInt cid; AInt fd; AInt n]).
+Proof. intros; quiet_tac. Qed.
+
 Definition quiet_ghost (what : string) : Prop :=
-  In what ["sub"; "hand"; "fail"; "del"; "udpconn"; "openreply"; "openreply-end"; "regcb"].
+  In what ["sub"; "hand"; "fail"; "del"; "udpconn"; "regcb"; "eagain"; "rearm-write"; "rearm-read"].
 
 Lemma quiet_g : forall what cid bs, quiet_ghost what -> quiet ("g", [ASym what; AInt cid; ABytes bs]).
 Proof.
